@@ -16,7 +16,7 @@ from . import common, gen
 from .common import fmt_nd, close
 
 PROP = 'C08'
-GENERATED = ['Proj', 'ProjFold']     # ProjFold: fold/unfold/reverse_array programs (C08_fold_generated, C08_fold_wiring)
+GENERATED = ['Proj', 'ProjFold', 'ProjLP']     # ProjFold: fold/unfold/reverse_array programs (C08_fold_generated, C08_fold_wiring); ProjLP: the per-population loop of LowPass.lowpass_func (C08_lowpass_axes)
 NEEDS_BUILD = False
 NEEDS_DRIVER = True
 DRIVER_MODULES = ['Projection']
@@ -1329,6 +1329,586 @@ def l3_large(chk, ctx, rng):
             chk.stat('large:lowpass')
     l3_data_dict_history(chk, ctx, rng, 3 if tier == 'quick' else 9, big=True)
 
+# --------------------------------------------------------------------------- round 6: projection inside the low-pass machinery
+# dadi/LowPass/LowPass.py re-implements projection in three places besides `projection_matrix`:
+#   (a) `lowpass_func` (inside `make_low_pass_func_GATK_multisample`) applies one projection matrix per population along that
+#       population's axis (swapaxes / dot / swapaxes); with deep coverage nothing else happens to the model spectrum, so the
+#       output must be `Spectrum.project` = the per-axis hypergeometric matrices, for 1..4 populations, equal and unequal sizes,
+#       and relabelling the populations must transpose the output;
+#   (b) `subsample_genotypes_1D` draws nsub/2 of the called individuals of every locus without replacement: over many loci that
+#       share a genotype configuration the subsampled allele counts must follow the exact individual-subsampling weights;
+#   (c) `simulate_GATK_multisample_calling` uses (b) per population: with deep coverage its table is the outer product of the
+#       rows of `projection_matrix(nseq, nsub, F)`.
+# Monte-Carlo comparisons use exact two-sided binomial tail probabilities (fixed seeds): an alarm needs a tail below PV_MIN.
+PV_MIN = 1e-10
+
+def cov_probs(c):
+    """compact description -> probabilities by depth: ['point', D] | ['band', lo, hi] | ['poisson', lam, D] | ['list', p0, p1, …]"""
+    k = c[0]
+    if k == 'point':
+        p = np.zeros(int(c[1]) + 1); p[int(c[1])] = 1.0
+    elif k == 'band':
+        p = np.zeros(int(c[2]) + 1); p[int(c[1]):] = 1.0 / (int(c[2]) - int(c[1]) + 1)
+    elif k == 'poisson':
+        lam = float(c[1]); D = int(c[2])
+        p = np.array([math.exp(-lam + dd * math.log(lam) - math.lgamma(dd + 1)) for dd in range(D + 1)]); p = p / p.sum()
+    else:
+        p = np.array([float(v) for v in c[1:]], dtype=float)
+    return p
+
+def cov_array(c):
+    p = cov_probs(c)
+    return np.array([np.arange(len(p), dtype=float), p])
+
+def lp_data(case):
+    """the model spectrum of a low-pass case: a pure function of (data_seed, data_kind, nseq) so that replay files stay small"""
+    r = np.random.default_rng(int(case['data_seed']))
+    shape = [int(n) + 1 for n in case['nseq']]
+    kind = case.get('data_kind', 'dense')
+    if kind == 'sparse':
+        data = r.uniform(0, 10, shape) * (r.random(shape) < 0.3)
+    elif kind == 'one-entry':
+        data = np.zeros(shape); data[tuple(int(r.integers(0, s)) for s in shape)] = float(r.integers(1, 100))
+    elif kind == 'neutral':
+        idx = np.indices(shape).sum(axis=0).astype(float); idx[idx == 0] = 1.0
+        data = float(r.uniform(0.5, 100)) / idx * (1.0 + 0.25 * r.random(shape))     # not symmetric under exchanging the populations
+    else:
+        data = r.uniform(0, 1, shape) ** 2 * 100
+    return gen.coarse(np.asarray(data, dtype=float), 20)
+
+class PrecalcRecorder:
+    """records the result of every `low_cov_precalc_…` call (a module global looked up by lowpass_func at call time)"""
+    NAME = 'low_cov_precalc_GATK_multisample_GATK_multisample'
+    def __init__(self, LP):
+        self.LP = LP; self.calls = []; self.orig = None
+    def __enter__(self):
+        self.orig = getattr(self.LP, self.NAME, None)
+        if self.orig is not None:
+            orig = self.orig; calls = self.calls
+            def recording(*a, **k):
+                r = orig(*a, **k); calls.append(r); return r
+            setattr(self.LP, self.NAME, recording)
+        return self
+    def __exit__(self, *exc):
+        if self.orig is not None:
+            setattr(self.LP, self.NAME, self.orig)
+        return False
+
+def lp_eval(ctx, LP, case, perm=None, record=False):
+    """build `make_low_pass_func_GATK_multisample` for the case with its populations in the order `perm` (population perm[k] of
+    the case becomes population k: sizes, coverage, inbreeding coefficients and the model's axes are permuted along) and evaluate
+    it once; returns (output data, output object, recorded precalc tuple or None)"""
+    dadi = ctx['dadi']
+    d = len(case['nseq'])
+    order = list(range(d)) if perm is None else [int(k) for k in perm]
+    ids = ['pop%d' % k for k in range(d)]
+    data = lp_data(case)
+    nseq = [int(case['nseq'][k]) for k in order]; nsub = [int(case['nsub'][k]) for k in order]
+    cov = {}
+    for k in order:                                   # the dictionary's order is the population order (`cov_dist.values()` is zipped with nseq)
+        cov[ids[k]] = cov_array(case['cov'][k])
+    Fx = None if case.get('F') is None else [float(case['F'][k]) for k in order]
+    pid = [ids[k] for k in order]
+    tdata = np.ascontiguousarray(np.transpose(data, order))
+    def func(params, ns, pts):
+        return dadi.Spectrum(tdata.copy(), pop_ids=list(pid))
+    kw = {}
+    if case.get('thr') is not None:
+        kw['sim_threshold'] = float(case['thr'])
+    import warnings
+    with warnings.catch_warnings():
+        warnings.simplefilter('ignore')
+        np.random.seed(int(case.get('sim_seed', 1)) % (2 ** 32)); LP.rng = np.random.default_rng(int(case.get('sim_seed', 1)))
+        f = LP.make_low_pass_func_GATK_multisample(func, cov, pid, nseq, nsub, Fx=Fx, **kw)
+        if record:
+            with PrecalcRecorder(LP) as rec:
+                out = f([1.0], nsub, None)
+            pre = rec.calls[-1] if rec.calls else None
+        else:
+            out = f([1.0], nsub, None); pre = None
+    return np.asarray(np.ma.getdata(out), dtype=float), out, pre
+
+_LPF = {}
+def lp_ref_matrix(n, m, F):
+    """exact operator 'n chromosomes -> m chromosomes': hypergeometric for F = 0, individual subsampling under inbreeding otherwise"""
+    if F == 0:
+        return W(n, m)
+    k = (n, m, float(F))
+    if k not in _LPF:
+        if len(_LPF) > 400: _LPF.clear()
+        _LPF[k] = lowpass_F_exact(n, m, F)
+    return _LPF[k]
+
+def along_axes(data, mats):
+    """apply matrix k along axis k, k = 0, 1, …"""
+    out = np.asarray(data, dtype=float)
+    for ax, M in enumerate(mats):
+        out = np.moveaxis(np.tensordot(out, np.asarray(M, dtype=float), axes=([ax], [0])), -1, ax)
+    return out
+
+def lp_small(case, kind):
+    return dict(kind=kind, nseq=[int(v) for v in case['nseq']], nsub=[int(v) for v in case['nsub']],
+                F=(None if case.get('F') is None else [float(v) for v in case['F']]), cov=[list(c) for c in case['cov']],
+                thr=case.get('thr'), data_seed=int(case['data_seed']), data_kind=case.get('data_kind', 'dense'),
+                perms=[[int(k) for k in p] for p in case.get('perms', [])], sizes_kind=case.get('sizes_kind'), sim_seed=int(case.get('sim_seed', 1)))
+
+def check_lowpass_deep(chk, ctx, case):
+    """deep coverage (every individual has >= 60 reads): the low-pass model function is plain projection of every population axis"""
+    LP = _lowpass(chk)
+    if LP is None:
+        return
+    dadi = ctx['dadi']
+    inp = lp_small(case, 'lpdeep')
+    nseq = inp['nseq']; nsub = inp['nsub']; d = len(nseq)
+    Fs = [0.0] * d if inp['F'] is None else inp['F']
+    key = ('lpdeep', d, case.get('sizes_kind'), inp['F'] is None, tuple(f > 0 for f in Fs), case.get('thr'), case.get('data_kind'))
+    try:
+        got, out, _ = lp_eval(ctx, LP, case)
+    except Exception as e:
+        chk.l3(key)
+        chk.fail('LowPass.lowpass_func:raises:%s' % type(e).__name__,
+                 'low-pass model for %d populations, nseq=%r nsub=%r Fx=%r (deep coverage) raises %r' % (d, nseq, nsub, inp['F'], e), inp)
+        return
+    chk.l3(key)
+    chk.stat('lpdeep:%dpop' % d); chk.stat('lpdeep:sizes:%s' % case.get('sizes_kind')); chk.stat('lpdeep:F:%s' % ('none' if inp['F'] is None else ('zero' if not any(Fs) else 'inbred')))
+    if got.shape != tuple(m + 1 for m in nsub):
+        chk.fail('LowPass.lowpass_func:shape', 'low-pass output has shape %r for nsub=%r (nseq=%r)' % (got.shape, nsub, nseq), inp)
+        return
+    if bool(getattr(out, 'folded', False)):
+        chk.fail('LowPass.lowpass_func:folded-flag', 'low-pass output of an unfolded model is marked folded', inp)
+    data = lp_data(case)
+    src = data.copy(); src[tuple([0] * d)] = 0.0; src[tuple([-1] * d)] = 0.0          # the absent / fixed corners of a model spectrum are masked and carry nothing
+    ref = along_axes(src, [lp_ref_matrix(n, m, F) for n, m, F in zip(nseq, nsub, Fs)])
+    keep = np.ones(got.shape, dtype=bool); keep[tuple([0] * d)] = False; keep[tuple([-1] * d)] = False
+    scale = max(float(np.max(np.abs(ref))), 1e-300)
+    def worst(a, b, where):
+        dv = np.where(where, np.abs(a - b), 0.0)
+        j = tuple(int(v) for v in np.unravel_index(int(np.argmax(dv)), dv.shape))
+        return float(dv[j]), j
+    if not np.all(np.isfinite(got[keep])):
+        chk.fail('LowPass.lowpass_func:nonfinite', 'low-pass output has non-finite entries (deep coverage, nseq=%r nsub=%r)' % (nseq, nsub), inp)
+        return
+    err, j = worst(got, ref, keep)
+    if err > RTOL * scale:
+        chk.fail('LowPass.lowpass_func:deep:entry', 'deep coverage, %d populations nseq=%r nsub=%r Fx=%r: entry %r of the low-pass model is %r; sampling %r of the sequenced '
+                 'chromosomes of every population without replacement gives %r (max error %.3g, scale %.3g)'
+                 % (d, nseq, nsub, inp['F'], list(j), float(got[j]), nsub, float(ref[j]), err, scale), inp)
+    if not any(Fs):
+        try:
+            P = dadi.Spectrum(data.copy()).project(list(nsub))
+            pm = ~np.array(np.ma.getmaskarray(P)) & keep
+            e2, j2 = worst(got, np.asarray(P.data, dtype=float), pm)
+            chk.l3(('lpdeep-vs-project', d, case.get('sizes_kind')))
+            if e2 > RTOL * scale:
+                chk.fail('LowPass.lowpass_func:deep:vs-project', 'deep coverage, nseq=%r nsub=%r: entry %r of the low-pass model is %r, Spectrum.project(%r) of the same model gives %r'
+                         % (nseq, nsub, list(j2), float(got[j2]), nsub, float(np.asarray(P.data)[j2])), inp)
+        except Exception as e:
+            chk.fail('project:raises:%s' % type(e).__name__, 'Spectrum.project(%r) raises %r' % (nsub, e), inp)
+    # relabelling the populations: sizes, coverage, inbreeding and the model's axes permuted along -> the output transposed
+    for perm in inp['perms']:
+        if perm == list(range(d)):
+            continue
+        try:
+            gp, _, _ = lp_eval(ctx, LP, case, perm=perm)
+        except Exception as e:
+            chk.fail('LowPass.lowpass_func:relabel:raises:%s' % type(e).__name__, 'the same low-pass model with its populations in the order %r raises %r' % (perm, e), dict(inp, perm=perm))
+            continue
+        chk.l3(('lpdeep-relabel', d, tuple(perm), case.get('sizes_kind')))
+        want = np.transpose(got, perm)
+        if gp.shape != want.shape:
+            chk.fail('LowPass.lowpass_func:relabel', 'populations in the order %r: output shape %r, expected the transposed shape %r' % (perm, gp.shape, want.shape), dict(inp, perm=perm))
+            continue
+        kp = np.transpose(keep, perm)
+        e3, j3 = worst(gp, want, kp)
+        if e3 > RTOL * scale:
+            chk.fail('LowPass.lowpass_func:relabel', 'nseq=%r nsub=%r Fx=%r: with the populations listed in the order %r the low-pass model is not the transposed model '
+                     '(entry %r: %r vs %r)' % (nseq, nsub, inp['F'], perm, list(j3), float(gp[j3]), float(want[j3])), dict(inp, perm=perm))
+
+def fmt_mats(mats):
+    return ';'.join(fmt_nd(np.asarray(M, dtype=float)) for M in mats)
+
+def check_lowpass_axes(chk, ctx, case, do_model=True):
+    """any coverage, everything analytic (sim_threshold = 1): the output is the damped model spectrum pushed through population
+    k's own projection and calling-error matrices ALONG AXIS k (the matrices the implementation itself computed are recorded).
+    K: the Lean model runs the per-population loop regenerated from the source on the same matrices."""
+    LP = _lowpass(chk)
+    if LP is None:
+        return
+    inp = lp_small(case, 'lpaxes')
+    nseq = inp['nseq']; nsub = inp['nsub']; d = len(nseq)
+    key = ('lpaxes', d, case.get('sizes_kind'), inp['F'] is None or not any(inp['F']))
+    try:
+        got, out, pre = lp_eval(ctx, LP, case, record=True)
+    except Exception as e:
+        chk.l3(key)
+        chk.fail('LowPass.lowpass_func:raises:%s' % type(e).__name__, 'low-pass model for %d populations, nseq=%r nsub=%r Fx=%r raises %r' % (d, nseq, nsub, inp['F'], e), inp)
+        return
+    chk.l3(key); chk.stat('lpaxes:%dpop' % d)
+    if pre is None:
+        chk.stat('lpaxes:precalc-not-observed'); return
+    pn, use_sim, proj_mats, heterr_mats, sims = pre
+    pn = np.asarray(pn, dtype=float); use_sim = np.asarray(use_sim, dtype=bool)
+    if use_sim.any() or len(proj_mats) != d or len(heterr_mats) != d:
+        chk.stat('lpaxes:skipped'); return
+    data = lp_data(case)
+    src = data.copy(); src[tuple([0] * d)] = 0.0; src[tuple([-1] * d)] = 0.0
+    analytic = src * (1.0 - pn)                     # `model * (1 - use_sim_mat)`, then `*= 1 - prob_nocall_ND` (the damping itself is C18's business)
+    mats = [np.asarray(P, dtype=float).dot(np.asarray(H, dtype=float)) for P, H in zip(proj_mats, heterr_mats)]
+    ref = along_axes(analytic, mats)
+    scale = max(float(np.max(np.abs(ref))), 1e-300)
+    if got.shape != ref.shape:
+        chk.fail('LowPass.lowpass_func:shape', 'low-pass output has shape %r for nsub=%r (nseq=%r)' % (got.shape, nsub, nseq), inp); return
+    err = float(np.max(np.abs(got - ref)))
+    if not np.all(np.isfinite(got)) or err > RTOL * scale:
+        j = tuple(int(v) for v in np.unravel_index(int(np.argmax(np.abs(got - ref))), got.shape))
+        chk.fail('LowPass.lowpass_func:axes', '%d populations nseq=%r nsub=%r: entry %r of the low-pass model is %r; applying population k\'s own projection and calling-error '
+                 'matrices along axis k (k = 0..%d) gives %r' % (d, nseq, nsub, list(j), float(got[j]), d - 1, float(ref[j])), inp)
+    if do_model and have_driver(ctx) and np.prod([n + 1 for n in nseq]) <= 800:
+        flat = []
+        for P, H in zip(proj_mats, heterr_mats):
+            flat += [np.asarray(P, dtype=float), np.asarray(H, dtype=float)]
+        o = ctx['driver'].ask('lpaxes %s %s' % (fmt_nd(analytic), fmt_mats(flat)))
+        if o.startswith('ok '):
+            sh, dat = o[3:].split(':')
+            mo = parse_floats(dat).reshape(tuple(int(t) for t in sh.split('x')))
+            if mo.shape == got.shape and float(np.max(np.abs(mo - got))) <= RTOL * scale: chk.k_ok('lowpass:axes')
+            else: chk.k_bad('lowpass:axes', inp, got, mo, float(np.max(np.abs(mo - got))) if mo.shape == got.shape else None)
+        else:
+            chk.k_bad('lowpass:axes', inp, got, o[:200], None)
+
+def gen_lp_case(rng, tier, d, sizes_kind, F_kind, deep=True):
+    hi = {1: 20, 2: 12, 3: 8, 4: 6}[d] if tier == 'quick' else {1: 30, 2: 16, 3: 10, 4: 8}[d]
+    def even(lo, hi_):
+        return 2 * int(rng.integers(max(1, lo // 2), hi_ // 2 + 1))
+    if sizes_kind in ('equal', 'equal-same'):
+        n = even(4, hi); m = n if sizes_kind == 'equal-same' else even(2, n - 2)
+        nseq = [n] * d; nsub = [m] * d
+    elif sizes_kind == 'nseq-equal':
+        n = even(4, hi); nseq = [n] * d
+        nsub = [even(2, n) for _ in range(d)]
+        if d >= 2 and len(set(nsub)) == 1:
+            nsub[-1] = nsub[-1] - 2 if nsub[-1] > 2 else nsub[-1] + 2
+    elif sizes_kind == 'pair-equal':
+        n = even(4, hi); m = even(2, n)
+        nseq = [n] * d; nsub = [m] * d
+        k = int(rng.integers(d))
+        n2 = even(2, hi)
+        while d >= 2 and n2 == n: n2 = even(2, hi)
+        nseq[k] = n2; nsub[k] = even(2, n2)
+    else:
+        nseq = [even(2, hi) for _ in range(d)]
+        for k in range(1, d):
+            t = 0
+            while nseq[k] in nseq[:k] and t < 8:
+                nseq[k] = even(2, hi); t += 1
+        nsub = [even(2, n) for n in nseq]
+    if F_kind == 'none': F = None
+    elif F_kind == 'zero': F = [0.0] * d
+    elif F_kind == 'same': F = [float(rng.choice([0.125, 0.25, 0.5]))] * d
+    else:
+        vals = [0.0, 0.125, 0.25, 0.5, 0.75]
+        F = [vals[int(k)] for k in rng.permutation(len(vals))[:d]]
+    if deep:
+        cov = []
+        for _ in range(d):
+            if rng.random() < 0.5: cov.append(['point', int(rng.integers(60, 101))])
+            else:
+                lo = int(rng.integers(60, 90)); cov.append(['band', lo, lo + int(rng.integers(1, 12))])
+        thr = [1.0, None, 0.01][int(rng.integers(3))]
+    else:
+        cov = []
+        for _ in range(d):
+            r = rng.random()
+            if r < 0.6:
+                lam = float(rng.choice([1.0, 2.0, 3.0, 5.0, 8.0])); cov.append(['poisson', lam, int(math.ceil(lam + 6 * math.sqrt(lam) + 2))])
+            elif r < 0.8:
+                D = int(rng.integers(2, 12)); cov.append(['list'] + [float(v) for v in (np.arange(1, D + 2) / float(np.arange(1, D + 2).sum()))])
+            else:
+                cov.append(['point', int(rng.integers(3, 30))])
+        thr = 1.0
+    perms = []
+    if d >= 2:
+        perms.append(list(range(d))[::-1])
+        p = [int(k) for k in rng.permutation(d)]
+        if p != list(range(d)) and p not in perms: perms.append(p)
+        if d >= 3:
+            perms.append(list(range(1, d)) + [0])               # a cyclic shift
+    return dict(nseq=nseq, nsub=nsub, F=F, cov=cov, thr=thr, data_seed=int(rng.integers(1, 2 ** 31 - 1)),
+                data_kind=['dense', 'dense', 'neutral', 'sparse', 'one-entry'][int(rng.integers(5))], perms=perms, sizes_kind=sizes_kind,
+                sim_seed=int(rng.integers(1, 2 ** 31 - 1)))
+
+def l3_lowpass_axes(chk, ctx, rng, reps):
+    """1..4 populations x {all sizes equal, equal and nothing subsampled, sequenced sizes equal / subsample sizes not, two populations
+    equal and one different, all different} x {Fx=None, zeros, one F for all, a different F per population}"""
+    tier = ctx['tier']
+    kinds = ['equal', 'equal-same', 'nseq-equal', 'pair-equal', 'unequal']
+    Fk = ['none', 'zero', 'distinct', 'same']
+    n = 0
+    for rep in range(reps):
+        for d in (1, 2, 3, 4):
+            for si, sk in enumerate(kinds):
+                if d == 1 and sk in ('nseq-equal', 'pair-equal'):
+                    continue
+                fk = Fk[(rep + si + d) % 4]
+                if d == 4 and fk in ('distinct', 'same') and (rep + si) % 2:
+                    fk = 'zero'
+                check_lowpass_deep(chk, ctx, gen_lp_case(rng, tier, d, sk, fk, deep=True)); n += 1
+                if (rep + si) % 2 == 0:
+                    check_lowpass_axes(chk, ctx, gen_lp_case(rng, tier, d, sk, ['zero', 'distinct'][(rep + d) % 2], deep=False), do_model=(d <= 3 or sk == 'equal'))
+    chk.stats['lowpass_deep_cases'] = n
+
+# ---- simulated subsampling
+def binom_tail(k, n, p):
+    """exact two-sided tail probability of observing k successes among n at success probability p"""
+    from scipy.stats import binom
+    if p <= 0.0: return 1.0 if k == 0 else 0.0
+    if p >= 1.0: return 1.0 if k == n else 0.0
+    return float(min(1.0, 2.0 * min(binom.cdf(k, n, p), binom.sf(k - 1, n, p))))
+
+def mc_compare(chk, counts, n, probs, slack=0.0):
+    """counts[s] observed among n draws vs probabilities probs[s] (each known up to +-slack): returns None or (s, frequency, probability, tail)"""
+    worst = None
+    for s in range(len(probs)):
+        k = int(counts[s]); p = float(probs[s]); fq = k / float(n)
+        if slack > 0:
+            p = min(1.0, p + slack) if fq > p else max(0.0, p - slack)
+            if abs(fq - float(probs[s])) <= slack:
+                continue
+        pv = binom_tail(k, n, p)
+        if pv > 0:
+            chk.stats['mc_min_tail'] = min(chk.stats.get('mc_min_tail', 1.0), pv)
+        if pv < PV_MIN and (worst is None or pv < worst[3]):
+            worst = (s, fq, float(probs[s]), pv)
+    chk.stat('mc_comparisons', len(probs))
+    return worst
+
+def subsample_exact_row(called, k):
+    """allele count among k/2 of the called individuals (genotypes `called`) drawn without replacement"""
+    return inbreeding_exact(list(called), k)
+
+def check_subsample_batch(chk, ctx, sc):
+    """`subsample_genotypes_1D` on L loci per genotype configuration (99 = not called; the order of the individuals differs from locus
+    to locus): every kept row is a sub-multiset of the called genotypes of a configuration of the batch, loci with fewer than nsub/2
+    calls are dropped, and the subsampled allele counts follow the exact law "nsub/2 of the called individuals without replacement"
+    — per configuration when the batch holds one configuration, pooled over the configurations otherwise."""
+    LP = _lowpass(chk)
+    if LP is None:
+        return
+    inp = dict(kind='subsample', configs=[[int(g) for g in c] for c in sc['configs']], L=int(sc['L']), nsub=int(sc['nsub']), seed=int(sc['seed']))
+    cfgs = inp['configs']; L = inp['L']; nsub = inp['nsub']; r = nsub // 2
+    N = len(cfgs[0])
+    prng = np.random.default_rng(inp['seed'] + 17)
+    rows = []
+    for c in cfgs:
+        block = np.tile(np.array(c, dtype=int), (L, 1))
+        rows.append(prng.permuted(block, axis=1))                               # who carries which genotype differs from locus to locus
+    calls = np.concatenate(rows)
+    calls = calls[prng.permutation(len(calls))]                                 # configurations interleaved
+    LP.rng = np.random.default_rng(inp['seed']); np.random.seed(inp['seed'] % (2 ** 32))
+    called = [[g for g in c if g != 99] for c in cfgs]
+    kept = [c for c in called if len(c) >= r]
+    key = ('subsample', N, r, len(cfgs), tuple(sorted(set(len(c) for c in called))) , len(kept) < len(cfgs))
+    try:
+        sub = np.asarray(LP.subsample_genotypes_1D(calls.copy(), nsub))
+    except Exception as e:
+        chk.l3(key)
+        chk.fail('LowPass.subsample_genotypes_1D:raises:%s' % type(e).__name__, 'subsample_genotypes_1D on %d loci x %d individuals, nsub=%d raises %r' % (len(calls), N, nsub, e), inp)
+        return
+    chk.l3(key); chk.stat('subsample:configs:%d' % len(cfgs)); chk.stat('subsample:%s' % ('subsampling' if any(len(c) > r for c in kept) else 'all-kept'))
+    if sub.ndim != 2 or sub.shape != (L * len(kept), r):
+        chk.fail('LowPass.subsample_genotypes_1D:shape', 'result shape %r; %d of the %d configurations have at least %d calls, so %d loci x %d individuals are expected'
+                 % (sub.shape, len(kept), len(cfgs), r, L * len(kept), r), inp)
+        return
+    if sub.size == 0:
+        return
+    if sub.min() < 0 or sub.max() > 2:
+        chk.fail('LowPass.subsample_genotypes_1D:uncalled-drawn', 'a subsample contains the value %r (an uncalled individual was drawn)' % int(sub.max() if sub.max() > 2 else sub.min()), inp)
+        return
+    # every row is a sub-multiset of some kept configuration
+    cnt = np.stack([(sub == v).sum(axis=1) for v in (0, 1, 2)], axis=1)
+    lim = np.array([[sum(1 for g in c if g == v) for v in (0, 1, 2)] for c in kept])
+    fits = (cnt[:, None, :] <= lim[None, :, :]).all(axis=2).any(axis=1)
+    if not fits.all():
+        j = int(np.argmin(fits))
+        chk.fail('LowPass.subsample_genotypes_1D:not-a-subsample', 'row %r of the result is not a subset of the called genotypes of any locus of the batch (configurations %r)'
+                 % (sub[j].tolist(), cfgs), inp)
+        return
+    sums = sub.sum(axis=1)
+    counts = np.bincount(sums, minlength=nsub + 1)
+    exact = np.zeros(nsub + 1)
+    for c in kept:
+        exact += subsample_exact_row(c, nsub) / len(kept)
+    bad = mc_compare(chk, counts, len(sums), exact)
+    if bad is not None:
+        what = 'configuration %r' % cfgs[0] if len(cfgs) == 1 else 'pooled over the configurations %r' % cfgs
+        chk.fail('LowPass.subsample_genotypes_1D:distribution', '%d loci per configuration, %s, %d of the called individuals kept: the subsampled allele count %d has frequency %.4f, '
+                 'drawing individuals without replacement gives %.4f (binomial tail %.2g); observed spectrum %s, exact %s'
+                 % (L, what, r, bad[0], bad[1], bad[2], bad[3], np.round(counts / float(len(sums)), 4).tolist(), np.round(exact, 4).tolist()), inp)
+        return
+    # the library's own closed form for the same thing
+    if len(kept) == 1:
+        try:
+            row = np.asarray(LP.projection_inbreeding(list(kept[0]), nsub), dtype=float)
+            if row.shape != exact.shape or float(np.max(np.abs(row - exact))) > RTOL:
+                chk.fail('LowPass.projection_inbreeding:value', 'projection_inbreeding(%r, %d) = %r; drawing %d of the %d individuals without replacement gives %r'
+                         % (kept[0], nsub, row.tolist(), r, len(kept[0]), exact.tolist()), dict(kind='inbreeding', partition=list(kept[0]), k=nsub))
+        except Exception as e:
+            chk.fail('LowPass.projection_inbreeding:raises:%s' % type(e).__name__, 'projection_inbreeding(%r, %d) raises %r' % (kept[0], nsub, e), dict(kind='inbreeding', partition=list(kept[0]), k=nsub))
+
+def gen_subsample_batch(rng, tier, mode):
+    N = int(rng.integers(2, 11))
+    def geno(ncalled):
+        kind = int(rng.integers(5))
+        if kind == 0: g = [0] * ncalled; g[int(rng.integers(ncalled))] = int(rng.integers(1, 3))        # a singleton / one homozygote
+        elif kind == 1: g = [int(v) for v in rng.integers(0, 3, ncalled)]
+        elif kind == 2: g = [int(v) for v in rng.choice([0, 2], ncalled)]
+        elif kind == 3: g = [int(v) for v in rng.choice([0, 1, 2], ncalled, p=[0.6, 0.3, 0.1])]
+        else: g = [int(v) for v in rng.choice([0, 1, 2], ncalled, p=[0.1, 0.3, 0.6])]
+        if len(set(g)) == 1 and ncalled >= 2:
+            g[0] = (g[0] + 1) % 3                                                                        # at least two different genotypes: the subsample is random
+        return sorted(g) + [99] * (N - ncalled)
+    L = int(4000 if tier == 'quick' else 12000)
+    if mode == 'single-full':
+        r = int(rng.integers(1, N)); cfgs = [geno(N)]
+    elif mode == 'single-partial':
+        c = int(rng.integers(max(2, N // 2), N + 1)) if N > 2 else 2
+        r = int(rng.integers(1, max(2, c))); cfgs = [geno(c)]
+    elif mode == 'mixed-same-calls':
+        c = int(rng.integers(2, N + 1)); r = int(rng.integers(1, max(2, c)))
+        # configurations with very different allele counts: mixing genotypes across loci would give counts no locus can produce
+        lo = sorted([0] * (c - 1) + [1]) + [99] * (N - c); hi_ = sorted([2] * (c - 1) + [1]) + [99] * (N - c)
+        cfgs = [lo, hi_, geno(c)]
+    else:
+        cs = sorted(set(int(v) for v in rng.integers(1, N + 1, size=3)) | {N})
+        r = int(rng.integers(1, max(2, cs[-1])))
+        cfgs = [geno(c) for c in cs]
+        if rng.random() < 0.5: cfgs.append([99] * N)                                                     # a locus nobody was called at
+    return dict(configs=cfgs, L=L, nsub=2 * r, seed=int(rng.integers(1, 2 ** 31 - 1)))
+
+def check_simulate_deep(chk, ctx, sc):
+    """`simulate_GATK_multisample_calling` with deep coverage: every genotype is called correctly, so the table of called allele
+    counts is the outer product over the populations of 'nsub of the nseq chromosomes (F = 0) / nsub/2 of the nseq/2 individuals
+    (F > 0) without replacement' given the true allele counts"""
+    LP = _lowpass(chk)
+    if LP is None:
+        return
+    inp = dict(kind='simulate', nseq=[int(v) for v in sc['nseq']], nsub=[int(v) for v in sc['nsub']], af=[int(v) for v in sc['af']],
+               F=[float(v) for v in sc['F']], cov=[list(c) for c in sc['cov']], nsim=int(sc['nsim']), seed=int(sc['seed']))
+    nseq, nsub, af, F, nsim = inp['nseq'], inp['nsub'], inp['af'], inp['F'], inp['nsim']
+    d = len(nseq)
+    cov = {}
+    for k in range(d):
+        cov['pop%d' % k] = cov_array(inp['cov'][k])
+    LP.rng = np.random.default_rng(inp['seed']); np.random.seed(inp['seed'] % (2 ** 32))
+    key = ('simulate', d, tuple(a == b for a, b in zip(nseq, nsub)), tuple(f > 0 for f in F))
+    import warnings
+    try:
+        with warnings.catch_warnings():
+            warnings.simplefilter('ignore')
+            tab = np.asarray(LP.simulate_GATK_multisample_calling(cov, list(af), list(nseq), list(nsub), nsim, list(F)), dtype=float)
+    except Exception as e:
+        chk.l3(key)
+        chk.fail('LowPass.simulate_GATK_multisample_calling:raises:%s' % type(e).__name__, 'simulate_GATK_multisample_calling(af=%r, nseq=%r, nsub=%r, F=%r) raises %r' % (af, nseq, nsub, F, e), inp)
+        return
+    chk.l3(key); chk.stat('simulate:%dpop' % d)
+    if tab.shape != tuple(m + 1 for m in nsub) or not np.all(np.isfinite(tab)) or abs(float(tab.sum()) - 1) > 1e-9:
+        chk.fail('LowPass.simulate_GATK_multisample_calling:table', 'result of shape %r, total %r is not a probability table over nsub=%r' % (tab.shape, float(np.nansum(tab)), nsub), inp)
+        return
+    E = np.ones(())
+    nparts = 1
+    for k in range(d):
+        E = np.multiply.outer(E, lp_ref_matrix(nseq[k], nsub[k], F[k])[af[k]])
+        nparts *= max(1, len(ctx['dadi'].Numerics.cached_part(af[k], nseq[k] // 2)))
+    n_eff = max(1, nsim - nparts)                      # int() truncation of nsim * partition probability
+    slack = 2.0 * nparts / nsim + 1e-12
+    counts = np.rint(tab.ravel() * n_eff).astype(int)
+    bad = mc_compare(chk, counts, n_eff, E.ravel(), slack=slack)
+    if bad is not None:
+        j = tuple(int(v) for v in np.unravel_index(bad[0], tab.shape))
+        chk.fail('LowPass.simulate_GATK_multisample_calling:subsampling', 'deep coverage, true allele counts %r of nseq=%r, F=%r, %d simulated loci: called allele counts %r have frequency %.4f; '
+                 'keeping nsub=%r without replacement gives %.4f (binomial tail %.2g; marginal of population 0: observed %s, exact %s)'
+                 % (af, nseq, F, nsim, list(j), bad[1], nsub, bad[2], bad[3], np.round(tab.reshape(tab.shape[0], -1).sum(axis=1), 4).tolist(),
+                    np.round(lp_ref_matrix(nseq[0], nsub[0], F[0])[af[0]], 4).tolist()), inp)
+
+def gen_simulate(rng, tier, d):
+    hi = {1: 14, 2: 8, 3: 6}[d]
+    nseq = [2 * int(rng.integers(2, hi // 2 + 1)) for _ in range(d)]
+    nsub = [2 * int(rng.integers(1, n // 2)) for n in nseq]                    # strictly fewer than sequenced
+    if d >= 2 and rng.random() < 0.3:
+        k = int(rng.integers(d)); nsub[k] = nseq[k]
+    af = [int(rng.integers(1, n)) for n in nseq]
+    F = [0.0 if rng.random() < 0.6 else float(rng.choice([0.125, 0.25, 0.5])) for _ in range(d)]
+    cov = [['point', int(rng.integers(60, 101))] for _ in range(d)]
+    return dict(nseq=nseq, nsub=nsub, af=af, F=F, cov=cov, nsim=int(20000 if tier == 'quick' else 60000), seed=int(rng.integers(1, 2 ** 31 - 1)))
+
+def l3_subsampling(chk, ctx, rng, reps):
+    tier = ctx['tier']
+    for it in range(reps):
+        for mode in ('single-full', 'single-partial', 'mixed-same-calls', 'mixed-calls'):
+            check_subsample_batch(chk, ctx, gen_subsample_batch(rng, tier, mode))
+        for d in (1, 1, 2, 3):
+            check_simulate_deep(chk, ctx, gen_simulate(rng, tier, d))
+
+# ---- brute force for small sizes
+def inbreeding_brute(partition, k):
+    import itertools
+    r = k // 2; out = np.zeros(k + 1); tot = 0
+    for c in itertools.combinations(range(len(partition)), r):
+        out[sum(partition[i] for i in c)] += 1; tot += 1
+    return out / tot
+
+def lowpass_F_brute(n, m, F):
+    """enumerate every assignment of genotypes to the n/2 individuals (weight = product of the genotype probabilities at frequency
+    i/n under inbreeding F) and every choice of m/2 individuals"""
+    import itertools
+    ni = n // 2; M = np.zeros((n + 1, m + 1)); tot = np.zeros(n + 1)
+    for g in itertools.product((0, 1, 2), repeat=ni):
+        i = sum(g)
+        gp = geno_probs(i / n, F) if 0 < i < n else [1.0, 1.0, 1.0]
+        w = 1.0
+        for v in g: w *= gp[v]
+        tot[i] += w
+        M[i] += w * inbreeding_brute(list(g), m)
+    return M / tot[:, None]
+
+def l3_bruteforce(chk, ctx, rng):
+    """`projection_inbreeding` for EVERY genotype multiset of 1..5 individuals and every k, `projection_matrix(n, m, F)` for every
+    even m <= n <= 8 (F in {0, 1/4, 3/5}) against plain enumeration of the subsets of individuals"""
+    import itertools
+    LP = _lowpass(chk)
+    if LP is None:
+        return
+    for N in range(1, 6 if ctx['tier'] == 'quick' else 7):
+        for part in itertools.combinations_with_replacement((0, 1, 2), N):
+            for r in range(1, N + 1):
+                inp = dict(kind='inbreeding', partition=list(part), k=2 * r)
+                try:
+                    got = np.asarray(LP.projection_inbreeding(list(part), 2 * r), dtype=float)
+                except Exception as e:
+                    chk.fail('LowPass.projection_inbreeding:raises:%s' % type(e).__name__, 'projection_inbreeding(%r, %d) raises %r' % (list(part), 2 * r, e), inp); continue
+                ex = inbreeding_brute(list(part), 2 * r)
+                chk.l3(('inbreeding-brute', N, r))
+                if got.shape != ex.shape or float(np.max(np.abs(got - ex))) > RTOL:
+                    chk.fail('LowPass.projection_inbreeding:value', 'projection_inbreeding(%r, %d) = %r; enumerating the %d-subsets of the %d individuals gives %r'
+                             % (list(part), 2 * r, got.tolist(), r, N, ex.tolist()), inp)
+                cf = inbreeding_exact(list(part), 2 * r)
+                if float(np.max(np.abs(cf - ex))) > 1e-12:
+                    chk.notes.append('harness: closed form and enumeration disagree for %r, k=%d' % (list(part), 2 * r))
+    for n in (2, 4, 6, 8):
+        for m in range(2, n + 1, 2):
+            for F in (0.0, 0.25, 0.6):
+                inp = dict(kind='lowpassF', n=n, m=m, F=F)
+                try:
+                    M = np.asarray(LP.projection_matrix(n, m, F), dtype=float)
+                except Exception as e:
+                    chk.fail('LowPass.projection_matrix:raises:%s' % type(e).__name__, 'projection_matrix(%d,%d,%g) raises %r' % (n, m, F, e), inp); continue
+                chk.l3(('lowpassF-brute', n, m, F))
+                ref = W(n, m) if F == 0 else lowpass_F_brute(n, m, F)
+                if M.shape != ref.shape or not np.all(np.isfinite(M)) or float(np.max(np.abs(M - ref))) > RTOL:
+                    i, j = np.unravel_index(int(np.argmax(np.abs(M - ref))), ref.shape) if M.shape == ref.shape else (0, 0)
+                    chk.fail('LowPass.projection_matrix:%svalue' % ('F:' if F else ''), 'projection_matrix(%d,%d,F=%g) entry [%d,%d] is %r; enumerating genotype assignments and subsets of %d of the %d individuals gives %r'
+                             % (n, m, F, i, j, float(M[i, j]) if M.shape == ref.shape else None, m // 2, n // 2, float(ref[i, j])), inp)
+
 # --------------------------------------------------------------------------- entry points
 def run(chk, ctx):
     tier = ctx['tier']
@@ -1344,6 +1924,15 @@ def run(chk, ctx):
                 'masks {none, single, corners, sparse, line}, checked entrywise against per-axis exact hypergeometric matrices (tensordot) + reachability masks, '
                 'plus two stages = one, axis-by-axis in random order, transposed axes, upward refusal, identity, `_project_one_axis`, LowPass F = 0 and '
                 'from_data_dict at n up to 200; '
+                'projection inside the low-pass machinery (LowPass.py): low-pass model functions for 1..4 populations at deep coverage (>= 60 reads per individual) with '
+                'sizes {all equal, equal and nothing subsampled, sequenced sizes equal / subsample sizes not, two populations equal and one different, all different} x '
+                'Fx {None, zeros, one F for all, a different F per population}, asymmetric model spectra, against per-axis exact matrices (hypergeometric / individual subsampling '
+                'under inbreeding), against Spectrum.project, and with the populations relabelled (reversed, random, cyclic); moderate coverage with the implementation\'s own '
+                'matrices recorded (matrix k along axis k; K through the translated loop); subsample_genotypes_1D on 4000 (12000 thorough) loci per genotype configuration '
+                '(one configuration fully / partly called, several configurations with equal and with different numbers of calls, uncallable loci) and '
+                'simulate_GATK_multisample_calling at deep coverage (1..3 populations, nsub < nseq, F = 0 and F > 0, 20000 / 60000 loci) against exact weights with exact binomial '
+                'tails (alarm below 1e-10, fixed seeds); projection_inbreeding for every genotype multiset of 1..5 individuals and projection_matrix for every even m <= n <= 8 against '
+                'plain enumeration; '
                 'non-trivial = distinct (dimension, folded, mask kind, target kinds, size class) / (n, m) pair' % nmax)
     chk.unproved = [
         'round-off of gammaln/exp and of the float accumulation: agreement of the float code with the exact rational model is numerical (1e-9 of the array scale; observed <= 3e-13 up to n = 200)',
@@ -1353,7 +1942,13 @@ def run(chk, ctx):
         'dictionary semantics of the cache (hit returns the stored row) is exercised (cold/warm), its transparency theorem is C20',
         'the per-axis loop of project is translated (axisVisits / visitDoes / visitCall; C08_axis_pairing) for loop headers of the form enumerate(<list>) / zip(<list>, <list>); '
         'a visiting order computed at run time (from the data, the array size, the amount of shrinkage) is outside the translated language (reported as a broken translation) '
-        'and is covered by the large-spectrum L3 oracle only: spectra above ~2.6e5 entries (quick) / ~1.1e6 (thorough) are never built']
+        'and is covered by the large-spectrum L3 oracle only: spectra above ~2.6e5 entries (quick) / ~1.1e6 (thorough) are never built',
+        'LowPass.lowpass_func: the per-population loop is translated (loopVisits / loopBody over swapaxes, moveaxis, dot, tensordot; C08_lowpass_axes about LPAx.runBody / runLoop on '
+        'functions of an index assignment); the driver runs the same runBody per population and tabulates the array in between (evaluation strategy, not proved equal to runLoop); '
+        'numpy.ma semantics of `dot` on the masked model (masked corners count as 0) is tied by correspondence and L3 only; a correct refactoring of the loop body into another statement '
+        'list (e.g. moveaxis there and back) needs the proof of C08_lowpass_axes redone',
+        'subsample_genotypes_1D / simulate_GATK_multisample_calling (random draws) are not in the Lean model: their subsampling law is checked statistically (exact binomial tails, '
+        'fixed seeds) against exact individual-subsampling weights; projection_inbreeding and projection_matrix(F > 0) against closed forms and enumeration (L3 only)']
     sweep_weights(chk, ctx, nmax, rng)
     sample_weights(chk, ctx, rng, 150 if tier == 'quick' else 1500, nmax + 1, 200)
     upward_rows(chk, ctx, rng, 40 if tier == 'quick' else 300)
@@ -1398,6 +1993,11 @@ def run(chk, ctx):
     cache_soundness(chk, ctx, 'LowPass.projection_matrix / projection_inbreeding')
     l3_attrs(chk, ctx, rng, 18 if tier == 'quick' else 90)
     l3_data_dict_history(chk, ctx, rng, 6 if tier == 'quick' else 30)     # once more on a warm cache
+    # round 6: projection inside the low-pass machinery (own random stream: the families above keep their inputs)
+    rng6 = common.Rng(ctx['seed'], 'C08/lowpass')
+    l3_bruteforce(chk, ctx, rng6)
+    l3_lowpass_axes(chk, ctx, rng6, 2 if tier == 'quick' else 10)
+    l3_subsampling(chk, ctx, rng6, 5 if tier == 'quick' else 25)
     cache_soundness(chk, ctx, 'the whole run')
     chk.stats['exhaustive'] = True
     chk.assumptions += ['exhaustive: true for the weight table 1 <= m <= n <= %d (every i, every j)' % nmax]
@@ -1439,6 +2039,14 @@ def replay(chk, ctx, data):
             check_lowpass_f0(chk, ctx, LP, int(inp['n']), int(inp['m']), done)
         else:
             run(chk, ctx)
+    elif kind == 'lpdeep':
+        check_lowpass_deep(chk, ctx, inp)
+    elif kind == 'lpaxes':
+        check_lowpass_axes(chk, ctx, inp)
+    elif kind == 'subsample':
+        check_subsample_batch(chk, ctx, inp)
+    elif kind == 'simulate':
+        check_simulate_deep(chk, ctx, inp)
     elif kind == 'large':
         c = large_build(inp)
         if inp.get('axis') is not None:
